@@ -25,7 +25,8 @@ META = {
                'init()/setZoneInfo()/isFilled(); no cache state outside that discipline (a memo in a look-up that a re-bind does not clear); '
                'cache key == tested year == filled year; Python cache key is not left set on a '
                'raising path and every accumulated attribute is reset on a refill; abbreviation buffers do not keep bytes of an '
-               'earlier zone or year',
+               'earlier zone or year; on the model zones the answers of one ZoneSpecifier object do not depend on what it was asked '
+               'before (queries of other years, init_for_year(), get_buffer_sizes())',
     'not_decided': 'history dependence through any other channel than these mechanisms on zones unlike the model zones; sequences longer than three queries',
     'assumptions': ['clang 14 parser and template instantiation', 'CPython ast',
                     'virtual calls are resolved to the static callee ZoneProcessor::<m>; overriders are the two processors'],
